@@ -152,7 +152,11 @@ func TestExhaustiveTrees(t *testing.T) {
 		})
 	}
 	evid.Exhaustive(fmt.Sprintf("every recursive tree (parent[i]<i) with n<=%d nodes, in 3 taxid numberings, built through the API and through LoadNCBITaxDump (2 file layouts): every pair over nodes, one merged id per node and 4 unknown ids x every third id over nodes and merged ids (Taxon, Path, LCA laws, IsSubCladeOf, IsBelongingSubclades, sequence predicates, Taxonomy.LCA of merged taxids at threshold 1.0)", maxN))
-	evid.Exhaustive(fmt.Sprintf("API-built: every such tree x every labelling of its nodes over {no rank, genus, species} (n<=%d; {no rank, genus} for n=7) x every node, merged id and 2 unknown ids x labels {no rank, genus, species, unused} (TaxonAtRank, HasRankDefined, HasRequiredRank, SetTaxonAtRank); dump-built: the same for n<=5", min(maxN, 6)))
+	labellings := "{no rank, genus, species}"
+	if maxN >= 7 {
+		labellings = "{no rank, genus, species} for n<=6 and {no rank, genus} for n=7"
+	}
+	evid.Exhaustive(fmt.Sprintf("API-built: every recursive tree with n<=%d nodes x every labelling of its nodes over %s x every node, merged id and 2 unknown ids x labels {no rank, genus, species, unused} (TaxonAtRank, HasRankDefined, HasRequiredRank, SetTaxonAtRank); dump-built: the same for n<=5", maxN, labellings))
 }
 
 // ------------------------------------------------------------------ random tiers
@@ -188,6 +192,18 @@ func genQueries(rt *rapid.T, tr *ref.Tree, unknown []int, nq int) []query {
 			q.B = tr.Taxid[p[rapid.IntRange(0, len(p)-1).Draw(rt, "ancestor")]]
 			if rapid.Bool().Draw(rt, "swap") {
 				q.A, q.B = q.B, q.A
+			}
+		}
+		// cousins: of a few candidates keep the one whose LCA with A is deepest (LCA strictly between root and both)
+		if ia, _, ok := tr.Resolve(q.A); ok && rapid.IntRange(0, 3).Draw(rt, "cousin") == 0 {
+			best, bestDepth := -1, -1
+			for _, cand := range rapid.SliceOfN(rapid.IntRange(0, tr.N()-1), 4, 4).Draw(rt, "cousin_candidates") {
+				if cand != ia && !tr.IsAncestorOrSelf(cand, ia) && !tr.IsAncestorOrSelf(ia, cand) && tr.Depth(tr.LCA(ia, cand)) > bestDepth {
+					best, bestDepth = cand, tr.Depth(tr.LCA(ia, cand))
+				}
+			}
+			if best >= 0 {
+				q.B = tr.Taxid[best]
 			}
 		}
 		q.C = genID(rt, "c", tr, nil)
